@@ -845,7 +845,7 @@ void build_transformers() {
 // ------------------------------------------------------------------ states, replay
 struct State { int parent; int op; int depth; int init; };
 std::vector<State> ST;
-struct Init { int dim; bool empty0; bool box0; std::string name; };
+struct Init { int dim; bool empty0; bool box0; int strict0; std::string name; Init() : dim(0), empty0(false), box0(false), strict0(0) {} };
 std::vector<Init> INITS;
 void make_init(int i, Pool2& P) {
   P.p[0].reset(make_prod(INITS[i].dim, INITS[i].empty0)); P.p[1].reset(make_prod(INITS[i].dim, false));
@@ -854,6 +854,10 @@ void make_init(int i, Pool2& P) {
     for (int j = 0; j < INITS[i].dim; ++j) { cs.insert(Variable(j) >= 0); cs.insert(Variable(j) <= 2); }
     P.p[0]->refine_with_constraints(cs);
   }
+  // narrow ranges with one STRICT end at a non-multiple of the moduli of the congruence menu, on the negative and on
+  // the positive side (a congruence reduction must keep the single hyperplane A = -4 resp. A = 4)
+  if (INITS[i].strict0 == 1) { P.p[0]->refine_with_constraint(Variable(0) >= -4); P.p[0]->refine_with_constraint(Variable(0) < -3); }
+  if (INITS[i].strict0 == 2) { P.p[0]->refine_with_constraint(Variable(0) > 3); P.p[0]->refine_with_constraint(Variable(0) <= 4); }
 }
 std::vector<int> ops_of(int s) { std::vector<int> h; while (ST[s].parent >= 0) { h.push_back(ST[s].op); s = ST[s].parent; } std::reverse(h.begin(), h.end()); return h; }
 void replay(int s, Pool2& P) { make_init(ST[s].init, P); std::vector<int> h = ops_of(s); for (size_t i = 0; i < h.size(); ++i) OPS[h[i]].apply(P); }
@@ -877,8 +881,10 @@ long long TRANS_A = 0;
 std::string state_key(const Pool2& P) { return P.p[0]->dump() + "\n=====\n" + P.p[1]->dump(); }
 
 void phase_a(int depth_max, const std::vector<int>& dims) {
-  for (int d : dims) for (int e = 0; e < 3; ++e) {
-    Init in; in.dim = d; in.empty0 = (e == 1); in.box0 = (e == 2); in.name = "dim " + std::to_string(d) + ": p0 = " + (e == 1 ? "EMPTY" : e == 2 ? "BOX02" : "UNIVERSE") + ", p1 = UNIVERSE";
+  for (int d : dims) for (int e = 0; e < 5; ++e) {
+    if (e == 4 && d != 1) continue;
+    Init in; in.dim = d; in.empty0 = (e == 1); in.box0 = (e == 2); in.strict0 = e == 3 ? 1 : e == 4 ? 2 : 0;
+    in.name = "dim " + std::to_string(d) + ": p0 = " + (e == 1 ? "EMPTY" : e == 2 ? "BOX02" : e == 3 ? "NEGSTRICT(-4<=A<-3)" : e == 4 ? "POSSTRICT(3<A<=4)" : "UNIVERSE") + ", p1 = UNIVERSE";
     INITS.push_back(in);
     Pool2 P; make_init((int)INITS.size() - 1, P);
     State s; s.parent = -1; s.op = -1; s.depth = 0; s.init = (int)INITS.size() - 1;
@@ -1073,7 +1079,7 @@ int run_main(int argc, char** argv) {
 
   if (!ARGS.replay.empty() || ARGS.has("--history")) {
     std::string hs = ARGS.opt("--history", ""), opn = ARGS.opt("--op", "");
-    Init i0; i0.dim = atoi(ARGS.opt("--dim", "2").c_str()); i0.empty0 = ARGS.has("--empty0"); i0.box0 = ARGS.has("--box0"); i0.name = "cmdline";
+    Init i0; i0.dim = atoi(ARGS.opt("--dim", "2").c_str()); i0.empty0 = ARGS.has("--empty0"); i0.box0 = ARGS.has("--box0"); i0.strict0 = atoi(ARGS.opt("--strict0", "0").c_str()); i0.name = "cmdline";
     if (!ARGS.replay.empty()) {
       std::ifstream f(ARGS.replay.c_str()); std::stringstream ss; ss << f.rdbuf(); std::string txt = ss.str();
       auto field = [&](const std::string& k) { size_t p = txt.find("\"" + k + "\""); if (p == std::string::npos) return std::string(); p = txt.find(':', p); size_t a = txt.find('"', p); size_t b = a + 1; while (b < txt.size() && txt[b] != '"') ++b; return txt.substr(a + 1, b - a - 1); };
@@ -1081,7 +1087,7 @@ int run_main(int argc, char** argv) {
       size_t p = txt.find("\"history\""); size_t a = txt.find('[', p), b = txt.find(']', a);
       std::string arr = txt.substr(a + 1, b - a - 1); hs.clear();
       size_t pos = 0; while ((pos = arr.find('"', pos)) != std::string::npos) { size_t e = arr.find('"', pos + 1); if (!hs.empty()) hs += ";"; hs += arr.substr(pos + 1, e - pos - 1); pos = e + 1; }
-      std::string in = field("init"); i0.dim = in.find("dim 2") != std::string::npos ? 2 : 1; i0.empty0 = in.find("p0 = EMPTY") != std::string::npos; i0.box0 = in.find("p0 = BOX02") != std::string::npos; i0.name = in;
+      std::string in = field("init"); i0.dim = in.find("dim 2") != std::string::npos ? 2 : 1; i0.empty0 = in.find("p0 = EMPTY") != std::string::npos; i0.box0 = in.find("p0 = BOX02") != std::string::npos; i0.strict0 = in.find("NEGSTRICT") != std::string::npos ? 1 : in.find("POSSTRICT") != std::string::npos ? 2 : 0; i0.name = in;
       std::string rd = field("reduction"); for (int k = 0; k < 5; ++k) if (rd == RED_NAMES[k]) RED = k;
     }
     INITS.push_back(i0);
